@@ -4,6 +4,7 @@ import (
 	"bytes"
 	"fmt"
 	"math/rand"
+	"os"
 	"strconv"
 	"strings"
 	"sync"
@@ -347,6 +348,7 @@ func genFrags(rnd *rand.Rand, n int) ([]int, string) {
 
 type c01Stats struct {
 	pipelines, requests, inversions, pipelinesInverted, redirects, reshards int64
+	dumped                                                                  int32
 }
 
 // c01Workload runs nconns connections x npipes pipelines against a fresh service.
@@ -486,8 +488,13 @@ func c01Workload(r *ev.Run, s *sutc.SUT, seed int64, nconns, npipes int, label s
 						if hostile {
 							key = "C01:reply-count:hostile-command-name"
 						}
-						r.Violation(key, fmt.Sprintf("connection %d: no (parsable) reply for request %d of pipeline: %v", connID, k, err),
-							map[string]interface{}{"workload": label, "seed": seed, "connection": ci, "pipeline": p, "index": k, "request": trunc(reqs[k].raw), "error": err.Error()})
+						w := map[string]interface{}{"workload": label, "seed": seed, "connection": ci, "pipeline": p, "index": k, "request": trunc(reqs[k].raw), "error": err.Error()}
+						if atomic.CompareAndSwapInt32(&st.dumped, 0, 1) {
+							if g, gerr := s.Goroutines(); gerr == nil {
+								w["proxy_goroutines_at_first_missing_reply"] = truncStr(g, 60000)
+							}
+						}
+						r.Violation(key, fmt.Sprintf("connection %d: no (parsable) reply for request %d of pipeline: %v", connID, k, err), w)
 						bad = true
 						break
 					}
@@ -580,7 +587,7 @@ func c01(r *ev.Run) {
 	r.Assume("echo-mode nodes answer with an encoding of the exact argument vector they received; harness RESP codec parses replies")
 	nconns, npipes, rounds := 16, 150, 1
 	if r.Tier == "thorough" {
-		nconns, npipes, rounds = 64, 47, 2
+		nconns, npipes, rounds = 64, 120, 5
 	}
 	st := &c01Stats{}
 	for round := 0; round < rounds; round++ {
@@ -589,7 +596,9 @@ func c01(r *ev.Run) {
 			r.Internal("start sut: %v", err)
 			return
 		}
-		c01Workload(r, s, r.Seed*31+int64(round), nconns, npipes, fmt.Sprintf("plain-%d", round), st, false)
+		if os.Getenv("VERIF_C01_ONLY") != "compression" { // debugging aid
+			c01Workload(r, s, r.Seed*31+int64(round), nconns, npipes, fmt.Sprintf("plain-%d", round), st, false)
+		}
 		c01Workload(r, s, r.Seed*37+int64(round), nconns, npipes/3, fmt.Sprintf("compression-%d", round), st, true)
 		s.Close()
 	}
